@@ -178,6 +178,8 @@ pub struct Sim {
     pub new_requests: Vec<ReqObs>,
     /// number of datastore effects applied (for crash-point accounting)
     pub effects: u64,
+    /// seeding aid: number of further datastore writes accepted (None = unlimited)
+    pub write_budget: Option<u64>,
 }
 
 pub const ZERO_PREIMAGE: &str = "0000000000000000000000000000000000000000000000000000000000000000";
@@ -197,6 +199,7 @@ impl Sim {
             counters: BTreeMap::new(),
             new_requests: Vec::new(),
             effects: 0,
+            write_budget: None,
         }
     }
 
@@ -216,6 +219,7 @@ impl Sim {
             counters: BTreeMap::new(),
             new_requests: Vec::new(),
             effects: 0,
+            write_budget: None,
         }
     }
 
@@ -298,6 +302,7 @@ impl Sim {
                 let hash = hex::encode(AsRef::<[u8]>::as_ref(inv.payment_hash()));
                 let has_amt = inv.amount_milli_satoshis().is_some();
                 let given = params.get("amount_msat").map(|v| !v.is_null()).unwrap_or(false);
+                let _ = given;
                 let reject = if inv.check_signature().is_err() {
                     Some(SimErr::rpc(-32602, "Invalid bolt11: bad signature"))
                 } else if has_amt && given {
@@ -611,6 +616,12 @@ impl Sim {
             }
             _ => return Err(SimErr::rpc(-32602, "mode: unknown")),
         };
+        if let Some(b) = self.write_budget {
+            if b == 0 {
+                return Err(SimErr::rpc(-32603, "write budget exhausted"));
+            }
+            self.write_budget = Some(b - 1);
+        }
         self.effects += 1;
         let out = Self::entry_json(&key, &new.0, new.1);
         self.datastore.insert(key, new);
